@@ -28,7 +28,7 @@ type c15log struct {
 	canceled []int
 }
 
-func (im *c15importer) WriteMap(base.BlockMap) error                               { return nil }
+func (im *c15importer) WriteMap(base.BlockMap) error                              { return nil }
 func (im *c15importer) WriteItem(base.BlockItemType, isaac.BlockItemReader) error { return nil }
 func (im *c15importer) Save(context.Context) (func(context.Context) error, error) {
 	return func(context.Context) error {
